@@ -5,38 +5,72 @@ use crate::util::sym::*;
 use akd::tree_node::TreeNodeWithPreviousValue;
 use akd::verif_hooks::determine_node_to_get;
 
-/// For every stored record and every target epoch: the node returned was last written at or
-/// before the target epoch, or the answer is NotFound; the latest node is returned whenever it
-/// is old enough.
-#[kani::proof]
-#[kani::unwind(34)]
-#[kani::stub(alloc::fmt::format, crate::util::format_stub)]
-fn c13_select_never_newer_than_target() {
+fn any_record() -> (akd::NodeLabel, akd::tree_node::TreeNode, bool, akd::tree_node::TreeNode, TreeNodeWithPreviousValue) {
     let l = label();
     let latest = tree_node(l);
     let has_prev: bool = kani::any();
     let prev = tree_node(l);
     let rec = TreeNodeWithPreviousValue { label: l, latest_node: latest.clone(), previous_node: if has_prev { Some(prev.clone()) } else { None } };
+    (l, latest, has_prev, prev, rec)
+}
+
+/// (a) For every stored record and every target epoch: the node returned was last written at or
+/// before the target epoch (or the answer is NotFound) -- no answer from a later epoch.
+#[kani::proof]
+#[kani::unwind(34)]
+#[kani::stub(alloc::fmt::format, crate::util::format_stub)]
+fn c13_select_never_newer_than_target() {
+    let (_l, latest, _has_prev, _prev, rec) = any_record();
     let t: u64 = kani::any();
     let r = determine_node_to_get(&rec, t);
     match &r {
-        Ok(Some(n)) => {
-            assert!(n.last_epoch <= t, "node selected for epoch t was written after epoch t");
-            if latest.last_epoch <= t {
-                assert!(same_node(n, &latest));
-            } else {
-                assert!(has_prev && same_node(n, &prev));
-            }
-        }
-        Ok(None) => {
-            // NotFound is allowed only when nothing old enough is stored
-            assert!(latest.last_epoch > t);
-            assert!(!has_prev || prev.last_epoch > t);
-        }
+        Ok(Some(n)) => assert!(n.last_epoch <= t, "node selected for epoch t was written after epoch t"),
+        Ok(None) => {}
         Err(()) => assert!(false, "unexpected error kind"),
     }
     kani::cover!(matches!(r, Ok(Some(_))) && latest.last_epoch > t);
     kani::cover!(matches!(r, Ok(None)));
+    core::mem::forget(r);
+    core::mem::forget(rec);
+}
+
+/// (b) The node returned is exactly the stored latest node when that is old enough, otherwise
+/// exactly the stored previous node (all fields).
+#[kani::proof]
+#[kani::unwind(34)]
+#[kani::stub(alloc::fmt::format, crate::util::format_stub)]
+fn c13_select_returns_stored_node_unchanged() {
+    let (_l, latest, has_prev, prev, rec) = any_record();
+    let t: u64 = kani::any();
+    let r = determine_node_to_get(&rec, t);
+    if let Ok(Some(n)) = &r {
+        if latest.last_epoch <= t {
+            assert!(same_node(n, &latest), "latest node is old enough but something else was returned");
+        } else {
+            assert!(has_prev && same_node(n, &prev), "a node other than the stored previous node was returned");
+        }
+    }
+    kani::cover!(matches!(r, Ok(Some(_))) && latest.last_epoch <= t);
+    kani::cover!(matches!(r, Ok(Some(_))) && latest.last_epoch > t);
+    core::mem::forget(r);
+    core::mem::forget(rec);
+}
+
+/// (c) NotFound is returned only when nothing old enough is stored (availability: a reader at the
+/// current or the previous epoch is always served).
+#[kani::proof]
+#[kani::unwind(34)]
+#[kani::stub(alloc::fmt::format, crate::util::format_stub)]
+fn c13_select_notfound_only_when_nothing_qualifies() {
+    let (_l, latest, has_prev, prev, rec) = any_record();
+    let t: u64 = kani::any();
+    let r = determine_node_to_get(&rec, t);
+    if let Ok(None) = &r {
+        assert!(latest.last_epoch > t, "NotFound although the latest node is old enough");
+        assert!(!has_prev || prev.last_epoch > t, "NotFound although the previous node is old enough");
+    }
+    kani::cover!(matches!(r, Ok(None)) && has_prev);
+    kani::cover!(matches!(r, Ok(None)) && !has_prev);
     core::mem::forget(r);
     core::mem::forget(rec);
 }
